@@ -220,6 +220,15 @@ func removeIncludedTaxes(doc billable) error {
 	}
 	tpi := doc.getTax().PricesInclude
 
+	if doc.getTotals() == nil {
+		// totals are required to compare the result with
+		if err := calculate(doc); err != nil {
+			return err
+		}
+		if doc.getTotals() == nil {
+			return nil // nothing to calculate
+		}
+	}
 	totalWithTax := doc.getTotals().TotalWithTax
 
 	doc.setTotals(new(Totals))
